@@ -424,6 +424,7 @@ def shapes(tier):
     # one payload longer than the decoder's 64 KiB allocation step (the chunk loop runs, 64-bit length form); put first: it is the longest job
     # (quick: first header byte fixed to FIN|Text so that the 65537 unmask steps are executed on one path only)
     jobs.append(("recv", [(65537, 1, 64, 0x81)], 0, None, True))
+    jobs.append(("recv", [(65537, 1, 64, 0x82)], 1, None, True))          # ... and the same cut one byte short (abrupt disconnect inside the second chunk)
     if tier == "thorough":
         jobs.append(("recv", [F(65537, 1, 64)], 0, None, True))
         jobs.append(("recv", [F(70 * 1024, 1, 64)], 0, None, True))
@@ -546,7 +547,10 @@ def run_part(tier, work, mir):
         lines.append(native_line(which, bytes(inp).hex(), arrived, eof, total))
     nat = _native_many(exe, lines)
     mism = []
+    cannot = [e for e in eng if e.startswith("ENGINE-ERROR")]
     for it, e, n, l in zip(items, eng, nat, lines):
+        if e.startswith("ENGINE-ERROR"):
+            continue
         if not _agree(e, n):
             # the native side is a real socket with real pauses: rule out a scheduling hiccup before calling it a disagreement
             again = [_native_many(exe, [l])[0] for _ in range(2)]
@@ -562,6 +566,16 @@ def run_part(tier, work, mir):
     jobs = shapes(tier)
     rs = mengine.pmap(_job, jobs)
     res["results"] = rs
+    if cannot:
+        res["undischarged"].append({"job": ["recv", [[3, 1, 7], [2, 1, 7]], 0, None, True], "why": "the executor cannot run %d of the %d validation scripts on this tree: %s" % (len(cannot), len(items), cannot[0][:200])})
+        # the validation scripts themselves are a native probe against the reference
+        for (which, shape, cut, arrived, eof, conc), n, l in zip(items, nat, lines):
+            inp, meta, total = build_script(z3, shape, cut, conc)
+            exp = _expected_concrete(which, shape, cut, arrived, eof, bytes(inp))
+            if exp is not None and not _matches_expected(n, exp) and not _matches_expected(_native_many(exe, [l])[0], exp):
+                res["violations"].append({"job": [which, [list(x) for x in shape], cut, arrived, eof], "replay": {"request": l, "native_dev": n, "native_release": _native_many(exe_rel, [l])[0], "expected": exp,
+                                                                                                                     "failed": "native probe (validation script the executor cannot run on this tree)", "job": "probe"}})
+                return res
     for r in rs:
         if r["verdict"] == "unsat":
             continue
